@@ -7,3 +7,9 @@ import Dm.Props.C12
 #print axioms Dm.Props.C12.constsFrom_eq
 #print axioms Dm.Props.C12.tryFromAux_spec
 #print axioms Dm.Props.C12.repr_none
+#print axioms Dm.Props.C12.wrap_of_fits
+#print axioms Dm.Props.C12.wrap_add_wrap
+#print axioms Dm.Props.C12.constW_exact
+#print axioms Dm.Props.C12.constsFromW_eq
+#print axioms Dm.Props.C12.consts_in_repr_are_discriminants
+#print axioms Dm.Props.C12.i8_far_variant_witness
